@@ -1,7 +1,7 @@
 From SV Require Import Model.Base Model.Tower Spec.C20Spec Run.Common.
 Open Scope N_scope.
 
-Record twcase := mkTwCase { tw_thr : N; tw_fb : bool; tw_reqs : list treq }.
+Record twcase := mkTwCase { tw_thr : N; tw_fb : N; tw_reqs : list treq }.
 
 Definition resp_code (r : tresp) : Z := match r with TROkInner => 0 | TROkFallback => 1 | TRErr => 2 | TRDropped => 3 end%Z.
 Definition resp_of (z : Z) : option tresp :=
